@@ -16,8 +16,8 @@ import (
 	"runtime"
 	"runtime/debug"
 	"slices"
-	"sync"
 	"strings"
+	"sync"
 
 	"golang.org/x/tools/go/ssa"
 )
@@ -79,6 +79,7 @@ type Machine struct {
 	reportInReplay bool
 	witnessDone    *sync.Map
 	NoDomain       bool
+	LenientSprintf bool
 	lastIf         *ssa.If
 	forkSites      map[string]int
 	domainHits     int
